@@ -123,6 +123,25 @@ def regenerate_arith():
     return []
 
 
+def regenerate_spec():
+    """Third tie (C01-C04, C07, C08, C09, C14): re-translate the closed-form glue of the spectrum object, the wrapped
+    difference and the ST4 wind-input loop body from /repo's current source (tools/py2lean_spec.py)."""
+    rc, out, _ = sh([sys.executable, str(VERIF / "tools" / "py2lean_spec.py")])
+    if rc != 0:
+        return ["tools/py2lean_spec.py could not translate a unit (construct outside the supported subset, or a call "
+                "whose arguments are no longer the ones the tie names):\n" + out[-1500:]]
+    return []
+
+
+def audit_with_spec(prop, gen_modules, thorough=False, arith=False):
+    problems = regenerate_spec() + (regenerate_arith() if arith else [])
+    aud = audit(prop, thorough=thorough, extra_modules=list(gen_modules))
+    if problems:
+        aud["ok"] = False
+        aud["problems"] += problems
+    return aud
+
+
 def audit_with_arith(prop, gen_module, thorough=False):
     problems = regenerate_arith()
     aud = audit(prop, thorough=thorough, extra_modules=[gen_module])
